@@ -213,7 +213,13 @@ pub fn next_action(cfg: &Config, r: &mut Rng) -> Action {
 			Action::TlvRewrite { v, rec: r.below(4) as u16, field, w, claim, chunk }
 		},
 		8 => Action::TlvShuffle { v, rec: r.below(4) as u16, dup: r.chance(1, 2), chunk },
-		9 => Action::Inflate { v, which: r.below(4) as u16, plus_one: r.coin(), chunk },
+		9 => {
+			if r.chance(1, 3) {
+				Action::Deflate { v, which: r.below(4) as u16, chunk }
+			} else {
+				Action::Inflate { v, which: r.below(4) as u16, plus_one: r.coin(), chunk }
+			}
+		},
 		10 => Action::BadByte { v, which: r.below(8) as u16, chunk },
 		11 => {
 			let len = match r.below(6) {
